@@ -12,8 +12,10 @@ import (
 	"fmt"
 	"math/rand"
 	"os"
+	"runtime"
 	"sort"
 	"strings"
+	"time"
 
 	"verifharness/fakesvc"
 	"verifharness/gw"
@@ -100,17 +102,46 @@ func inPlan(plans []*gw.PlanRec, url, query string) bool {
 	return false
 }
 
+func canon(v interface{}) string {
+	if v == nil {
+		return ""
+	}
+	b, _ := json.Marshal(v) // encoding/json sorts map keys
+	return string(b)
+}
+
+func errorsFull(es []interface{}) []interface{} {
+	out := []interface{}{}
+	for _, e := range es {
+		if m, ok := e.(map[string]interface{}); ok {
+			out = append(out, map[string]interface{}{"message": fmt.Sprintf("%v", m["message"]), "ext": canon(m["extensions"]), "path": canon(m["path"])})
+		}
+	}
+	return out
+}
+
 type callEv struct {
-	Ev   string                   `json:"ev"`
-	Svc  string                   `json:"svc"`
-	Call int                      `json:"call"`
-	N    int                      `json:"n"`
-	Dup  bool                     `json:"dup"`
-	Reqs []map[string]interface{} `json:"reqs"`
+	Ev     string                   `json:"ev"`
+	Svc    string                   `json:"svc"`
+	Call   int                      `json:"call"`
+	N      int                      `json:"n"`
+	Dup    bool                     `json:"dup"`
+	Reqs   []map[string]interface{} `json:"reqs"`
+	Leaves []string                 `json:"leaves"`
 }
 
 // runOp sends one operation through a gateway and emits Req / Plan / Call / Resp events.
+type runOpts struct {
+	fault *fakesvc.FaultSpec
+	text  string // send this text instead of the rendered operation (invalid operations, C10)
+	inv   string // kind of invalidity
+}
+
 func runOp(em *emitter, g *gw.GW, mono *fakesvc.Net, w *world.World, op *world.Op, run string) bool {
+	return runOpWith(em, g, mono, w, op, run, runOpts{})
+}
+
+func runOpWith(em *emitter, g *gw.GW, mono *fakesvc.Net, w *world.World, op *world.Op, run string, o runOpts) bool {
 	op.Fill()
 	g.ResetLogs()
 	text := w.OpText(op)
@@ -126,11 +157,46 @@ func runOp(em *emitter, g *gw.GW, mono *fakesvc.Net, w *world.World, op *world.O
 		}
 		monoRes = res
 	}
-	em.emit(map[string]interface{}{"ev": "Req", "run": run, "op": op, "cfg": g.Cfg.Name, "text": text})
-	if monoRes != nil {
+	reqEv := map[string]interface{}{"ev": "Req", "run": run, "op": op, "cfg": g.Cfg.Name, "text": text, "invalid": o.inv}
+	if o.text != "" {
+		reqEv["text"] = o.text
+	}
+	em.emit(reqEv)
+	if monoRes != nil && o.text == "" {
 		em.emit(map[string]interface{}{"ev": "Mono", "data": world.TagJSON(monoRes["data"])})
 	}
-	st, env, err := g.Do(op)
+	applied := false
+	if o.fault != nil {
+		g.Net.Fault = o.fault.Apply(&applied)
+	}
+	em.w.Flush() // a crash of the gateway is attributed to the last Req line
+	type doRes struct {
+		st  int
+		env map[string]interface{}
+		err error
+	}
+	ch := make(chan doRes, 1)
+	go func() {
+		var r doRes
+		if o.text != "" {
+			r.st, r.env, r.err = g.DoText(o.text, op.VarsToGo(), op.Name)
+		} else {
+			r.st, r.env, r.err = g.Do(op)
+		}
+		ch <- r
+	}()
+	var st int
+	var env map[string]interface{}
+	var err error
+	select {
+	case r := <-ch:
+		st, env, err = r.st, r.env, r.err
+	case <-time.After(20 * time.Second):
+		em.emit(map[string]interface{}{"ev": "Hang", "stacks": stacks()})
+		em.w.Flush()
+		os.Exit(3)
+	}
+	g.Net.Fault = nil
 	plans, qcalls := g.Snapshot()
 	logs, calls := g.Net.Snapshot()
 	if len(plans) > 0 {
@@ -154,7 +220,10 @@ func runOp(em *emitter, g *gw.GW, mono *fakesvc.Net, w *world.World, op *world.O
 		em.emit(map[string]interface{}{"ev": "QCall", "svc": qc.URL, "n": qc.N, "dup": qc.Dup})
 	}
 	for _, c := range calls {
-		ce := callEv{Ev: "Call", Svc: c.Svc, Call: c.Call, N: c.Batch, Reqs: []map[string]interface{}{}}
+		ce := callEv{Ev: "Call", Svc: c.Svc, Call: c.Call, N: c.Batch, Reqs: []map[string]interface{}{}, Leaves: c.Leaves}
+		if ce.Leaves == nil {
+			ce.Leaves = []string{}
+		}
 		seen := map[string]bool{}
 		for _, l := range logs {
 			if l.Svc != c.Svc || l.Call != c.Call {
@@ -190,12 +259,62 @@ func runOp(em *emitter, g *gw.GW, mono *fakesvc.Net, w *world.World, op *world.O
 		}
 		em.emit(ce)
 	}
+	if o.fault != nil && applied {
+		es := []interface{}{}
+		if o.fault.Kind == "errorsall" {
+			_, cls := g.Net.Snapshot()
+			n := 1
+			for _, c := range cls {
+				if c.Svc == o.fault.Svc && c.Call == o.fault.Call {
+					n = c.Batch
+				}
+			}
+			for i := 0; i < n; i++ {
+				for k, e := range o.fault.Errors {
+					c := map[string]interface{}{}
+					for kk, vv := range e {
+						c[kk] = vv
+					}
+					c["message"] = fmt.Sprintf("%v [request %d of the batch, error %d]", e["message"], i, k)
+					es = append(es, c)
+				}
+			}
+		} else {
+			for _, e := range o.fault.Errors {
+				es = append(es, e)
+			}
+		}
+		em.emit(map[string]interface{}{"ev": "Fault", "kind": o.fault.Kind, "svc": o.fault.Svc, "call": o.fault.Call, "pos": o.fault.Pos,
+			"signal": fakesvc.FailureSignals[o.fault.Kind], "payload": errorsFull(es)})
+	}
 	if err != nil {
-		em.emit(map[string]interface{}{"ev": "Resp", "status": st, "wellformed": false, "data": world.Z(), "errors": []interface{}{err.Error()}, "hasData": false})
+		em.emit(map[string]interface{}{"ev": "Resp", "status": st, "wellformed": false, "data": world.Z(), "errors": []interface{}{err.Error()}, "hasData": false,
+			"errorsFull": []interface{}{}, "leaves": []string{}})
 		return true
 	}
 	_, hasData := env["data"]
-	em.emit(map[string]interface{}{"ev": "Resp", "status": st, "wellformed": true, "data": world.TagJSON(env["data"]), "errors": errorMessages(env), "hasData": hasData})
+	esFull := []interface{}{}
+	if es, ok := env["errors"].([]interface{}); ok {
+		esFull = errorsFull(es)
+	}
+	lv := map[string]bool{}
+	fakesvc.ScalarLeaves(env["data"], lv)
+	leaves := []string{}
+	for k := range lv {
+		leaves = append(leaves, k)
+	}
+	sort.Strings(leaves)
+	wellformed := true
+	for k := range env {
+		if k != "data" && k != "errors" {
+			wellformed = false
+		}
+	}
+	if _, hasErr := env["errors"]; !hasData && !hasErr {
+		wellformed = false
+	}
+	em.emit(map[string]interface{}{"ev": "Resp", "status": st, "wellformed": wellformed, "data": world.TagJSON(env["data"]), "errors": errorMessages(env), "hasData": hasData,
+		"errorsFull": esFull, "leaves": leaves})
 	return true
 }
 
@@ -208,6 +327,56 @@ func worldEvent(w *world.World) map[string]interface{} {
 	return map[string]interface{}{"ev": "World", "id": w.ID, "types": w.Types, "ents": w.Ents, "roots": w.Roots, "services": svcs, "tags": w.Tags}
 }
 
+func stacks() string {
+	buf := make([]byte, 1<<20)
+	return string(buf[:runtime.Stack(buf, true)])
+}
+
+func genErrors(rng *rand.Rand) []map[string]interface{} {
+	n := 1 + rng.Intn(3)
+	var out []map[string]interface{}
+	for i := 0; i < n; i++ {
+		e := map[string]interface{}{"message": fmt.Sprintf("downstream failure %d-%d", rng.Intn(1000), i)}
+		if rng.Intn(2) == 0 {
+			e["extensions"] = map[string]interface{}{"code": []string{"FORBIDDEN", "NOT_FOUND", "X"}[rng.Intn(3)], "n": rng.Intn(5), "nested": map[string]interface{}{"a": true}}
+		}
+		if rng.Intn(2) == 0 {
+			e["path"] = []interface{}{"node", "f" + fmt.Sprint(rng.Intn(3)), rng.Intn(3)}
+		}
+		if rng.Intn(3) == 0 {
+			e["locations"] = []interface{}{map[string]interface{}{"line": 1 + rng.Intn(5), "column": 1 + rng.Intn(20)}}
+		}
+		out = append(out, e)
+	}
+	return out
+}
+
+// faultRuns: a fault-free run (to learn which calls the operation makes), then the same operation
+// with ONE fault injected at a chosen (service, call, position), then a fault-free canary.
+func faultRuns(em *emitter, rng *rand.Rand, g *gw.GW, mono *fakesvc.Net, w *world.World, op *world.Op, run string) {
+	if !runOp(em, g, mono, w, op, run+".dry") {
+		return
+	}
+	_, calls := g.Net.Snapshot()
+	if len(calls) == 0 {
+		return
+	}
+	nf := 1
+	if rng.Intn(4) == 0 {
+		nf = 2
+	}
+	for k := 0; k < nf; k++ {
+		c := calls[rng.Intn(len(calls))]
+		kind := fakesvc.AllFaultKinds[rng.Intn(len(fakesvc.AllFaultKinds))]
+		f := &fakesvc.FaultSpec{Kind: kind, Svc: c.Svc, Call: c.Call, Pos: rng.Intn(c.Batch)}
+		if kind == "errors" || kind == "errorsall" {
+			f.Errors = genErrors(rng)
+		}
+		runOpWith(em, g, nil, w, op, fmt.Sprintf("%s.fault%d", run, k), runOpts{fault: f})
+	}
+	runOp(em, g, nil, w, op, run+".canary")
+}
+
 func cmdGen(args []string) {
 	fs := flag.NewFlagSet("gen", flag.ExitOnError)
 	seed := fs.Int64("seed", 1, "")
@@ -217,6 +386,7 @@ func cmdGen(args []string) {
 	feat := fs.String("features", "", "comma separated: abstract,disjoint,oddids,biglists,nomut")
 	cfgs := fs.String("cfgs", "default", "comma separated gateway configurations: default,sanitize,idhint,cached,batch1,batch2")
 	dump := fs.String("dump", "", "directory to dump SDLs of failing-to-start worlds")
+	mode := fs.String("mode", "plain", "plain | faults | invalid")
 	fs.Parse(args)
 	em, closef := newEmitter(*out)
 	defer closef()
@@ -282,8 +452,16 @@ func cmdGen(args []string) {
 				if gi == 0 {
 					m = mono
 				}
-				if !runOp(em, g, m, w, op, fmt.Sprintf("%d.%d.%s", w.ID, k, g.Cfg.Name)) {
-					break
+				run := fmt.Sprintf("%d.%d.%s", w.ID, k, g.Cfg.Name)
+				switch *mode {
+				case "faults":
+					faultRuns(em, rng, g, m, w, op, run)
+				case "invalid":
+					invalidRuns(em, rng, g, mono, w, op, run)
+				default:
+					if !runOp(em, g, m, w, op, run) {
+						break
+					}
 				}
 			}
 		}
@@ -380,4 +558,117 @@ func main() {
 	default:
 		os.Exit(2)
 	}
+}
+
+// ---------------------------------------------------------------------------- invalid operations (C10)
+
+func cloneOp(op *world.Op) *world.Op {
+	b, _ := json.Marshal(op)
+	var c world.Op
+	json.Unmarshal(b, &c)
+	return c.Fill()
+}
+
+func allFields(ss []*world.Sel, acc *[]*world.Sel) {
+	for _, s := range ss {
+		if s.K == "F" {
+			*acc = append(*acc, s)
+		}
+		allFields(s.Sub, acc)
+	}
+}
+
+// invalidRuns derives invalid operations from a valid one by a single mutation and sends them.
+func invalidRuns(em *emitter, rng *rand.Rand, g *gw.GW, mono *fakesvc.Net, w *world.World, op *world.Op, run string) {
+	kinds := []string{"unknown-field", "unknown-argument", "unknown-type", "undeclared-variable", "wrong-variable-type",
+		"selection-on-leaf", "object-without-selection", "fragment-cycle", "two-operations-no-name", "unknown-operation-name", "syntax-error"}
+	kind := kinds[rng.Intn(len(kinds))]
+	c := cloneOp(op)
+	var fields []*world.Sel
+	allFields(c.Sel, &fields)
+	text := ""
+	opName := c.Name
+	switch kind {
+	case "unknown-field":
+		fields[rng.Intn(len(fields))].Name = "zzUnknownField"
+	case "unknown-argument":
+		f := fields[rng.Intn(len(fields))]
+		f.Args["zzArg"] = world.ArgExpr{"t": "lit", "v": world.ArgVal{"t": "i", "v": 1}}
+	case "unknown-type":
+		f := fields[rng.Intn(len(fields))]
+		f.Sub = append(f.Sub, &world.Sel{K: "I", On: "ZZUnknownType", Args: map[string]world.ArgExpr{}, Dirs: []world.Dir{}, Sub: []*world.Sel{{K: "F", Key: "id", Name: "id", Args: map[string]world.ArgExpr{}, Dirs: []world.Dir{}, Sub: []*world.Sel{}}}})
+	case "undeclared-variable":
+		f := fields[rng.Intn(len(fields))]
+		f.Dirs = append(f.Dirs, world.Dir{N: "include", If: world.ArgExpr{"t": "var", "n": "zzUndeclared"}})
+	case "wrong-variable-type":
+		if len(c.VarOrd) == 0 {
+			return
+		}
+		v := c.VarOrd[rng.Intn(len(c.VarOrd))]
+		c.VarDefs[v].Def = nil
+		if c.VarDefs[v].Type.Name == "Boolean" {
+			c.VarDefs[v].Type.Name = "Int"
+		} else {
+			c.VarDefs[v].Type.Name = "Boolean"
+		}
+		delete(c.Vars, v)
+	case "selection-on-leaf":
+		var leaves []*world.Sel
+		for _, f := range fields {
+			if len(f.Sub) == 0 {
+				leaves = append(leaves, f)
+			}
+		}
+		if len(leaves) == 0 {
+			return
+		}
+		f := leaves[rng.Intn(len(leaves))]
+		f.Sub = []*world.Sel{{K: "F", Key: "id", Name: "id", Args: map[string]world.ArgExpr{}, Dirs: []world.Dir{}, Sub: []*world.Sel{}}}
+	case "object-without-selection":
+		var objs []*world.Sel
+		for _, f := range fields {
+			if len(f.Sub) > 0 {
+				objs = append(objs, f)
+			}
+		}
+		if len(objs) == 0 {
+			return
+		}
+		objs[rng.Intn(len(objs))].Sub = []*world.Sel{}
+	case "fragment-cycle":
+		root := world.RootTypeName(c.Kind)
+		text = w.OpText(c)
+		i := strings.Index(text, "{")
+		text = text[:i+1] + " ...ZA " + text[i+1:] + fmt.Sprintf("fragment ZA on %s { ...ZB }\nfragment ZB on %s { ...ZA }\n", root, root)
+	case "two-operations-no-name":
+		if c.Name == "" {
+			c.Name = "OpMain"
+		}
+		text = w.OpText(c) + "query ZZOther { __typename }\n"
+		opName = ""
+	case "unknown-operation-name":
+		if c.Name == "" {
+			c.Name = "OpMain"
+		}
+		text = w.OpText(c)
+		opName = "ZZNoSuchOperation"
+	case "syntax-error":
+		text = w.OpText(c)
+		text = text[:strings.LastIndex(text, "}")]
+	}
+	if text == "" {
+		text = w.OpText(c)
+	}
+	// confirm with gqlparser on the merged (monolith) schema that the operation is invalid; the two
+	// operation-name kinds are invalid by construction (the document itself validates)
+	if kind != "two-operations-no-name" && kind != "unknown-operation-name" {
+		_, lg := fakesvc.AnswerFor(mono.Service("http://mono.test"), text, c.VarsToGo(), opName)
+		if lg.Validates {
+			return
+		}
+	}
+	c.Name = opName
+	runOpWith(em, g, nil, w, c, run+".invalid", runOpts{text: text, inv: kind})
+	// and the gateway still serves the valid operation afterwards
+	runOp(em, g, nil, w, op, run+".after")
 }
